@@ -8,6 +8,25 @@
 //!    independent reader; UAC role: they are the generated values the peer put into its 2xx).
 //!  * `registration` (+ `_random`): `Registration` driven the way examples/register.rs does, against a
 //!    scripted registrar answering 200 (Expires header) / 423 (Min-Expires).
+//!  * `registration_bindings` (+ the shaped half of `registration_random`): the same loop, but the 200 has
+//!    the shape RFC 3261 10.3 step 8 prescribes: a Contact list with ALL bindings of the address-of-record.
+//!    Generated: our own binding {not listed, listed without / with `;expires=<granted>`} x Expires header
+//!    {= granted, absent, smaller, larger} x 0..3 bindings of other devices (six URIs that differ from
+//!    ours in host, port, user or scheme; `expires` absent / 0 / shorter / longer than ours / u32 edge)
+//!    x every position of our binding in the list x layout {comma list, one header per binding, compact
+//!    `m:`} x spelling of our entry (q parameter before/after, display name, `EXPIRES`) x header order.
+//!    Our binding is spelled exactly as the REGISTER's Contact (read from the wire).
+//!    Oracle (`stated_lifetime`, written from RFC 3261 10.2.4): the lifetime of OUR binding is the
+//!    `expires` parameter of our own Contact, else the Expires header; `wait_for_expiry` must return
+//!    strictly before grant + that lifetime (when > 10 s). The other devices' values never enter the
+//!    oracle. Failures are named by where the 200 states the lifetime: `c17.reg/{never-refreshed,
+//!    refresh-not-before-expiry}:<200|after-423>[:own-binding-listed|:other-bindings-listed]` when the
+//!    Expires header states it (our Contact absent, without parameter, or agreeing), and the single
+//!    signature `c17.reg/not-refreshed-before-own-contact-expires` when only our Contact's parameter does
+//!    (header absent or different).
+//!    Not asserted: a 200 that states no lifetime for our binding (no Expires header and our Contact not
+//!    listed / without parameter: class only, no panic); how early a refresh happens; the Expires value of
+//!    the following REGISTER; 422.
 
 use crate::engine::*;
 use crate::world::wire::param_of;
@@ -1405,12 +1424,175 @@ pub fn strategy_uac() -> BoxedStrategy<SessCase> {
 // ------------------------------------------------------------------------------------------
 // registrations
 
-#[derive(Serialize, Deserialize, Clone, Copy, Debug, Hash, PartialEq, Eq)]
+/// The `Expires` header of a 200
+#[derive(Serialize, Deserialize, Clone, Copy, Debug, Hash, PartialEq, Eq, Default)]
+pub enum Hdr {
+    /// `Expires: <granted>` (what the registrar granted to our binding)
+    #[default]
+    Own,
+    /// no Expires header (RFC 3261 10.3 step 8 only requires the `expires` parameter of every listed Contact)
+    Absent,
+    /// `Expires: v` with some other value
+    Other(u32),
+}
+
+/// How our own binding appears in the Contact list of a 200
+#[derive(Serialize, Deserialize, Clone, Copy, Debug, Hash, PartialEq, Eq, Default)]
+pub enum OwnBinding {
+    #[default]
+    NotListed,
+    /// listed without `expires` parameter
+    NoParam,
+    /// listed with `;expires=<granted>`
+    Param,
+}
+
+/// What the 200 of the registrar looks like: RFC 3261 10.3 step 8 has the registrar return ALL current
+/// bindings of the address-of-record (other devices of the same user included), each with the lifetime
+/// the registrar chose for it; 10.2.4: the UA finds the lifetime of ITS binding in the `expires`
+/// parameter of its own Contact, and in the `Expires` header when that parameter is missing.
+/// The default value is the plain `Expires: <granted>` answer without Contact header.
+#[derive(Serialize, Deserialize, Clone, Debug, Hash, PartialEq, Eq, Default)]
+pub struct Shape {
+    #[serde(default)]
+    pub hdr: Hdr,
+    #[serde(default)]
+    pub own: OwnBinding,
+    /// bindings of other devices: (index into `FOREIGN`, `expires` parameter)
+    #[serde(default)]
+    pub others: Vec<(u8, Option<u32>)>,
+    /// how many of the other bindings are listed before our own (clamped to their number)
+    #[serde(default)]
+    pub own_pos: u8,
+    /// 0: one comma separated `Contact:` header, 1: one `Contact:` header per binding, 2: compact form `m:`
+    #[serde(default)]
+    pub layout: u8,
+    /// spelling of our own binding: 0 `<uri>;expires=N`, 1 `<uri>;q=0.5;expires=N`, 2 `"Alice" <uri>;expires=N`,
+    /// 3 `<uri>;EXPIRES=N`, 4 `<uri>;expires=N;q=0.5`
+    #[serde(default)]
+    pub own_style: u8,
+    /// Expires header before (true) / after the Contact headers
+    #[serde(default)]
+    pub hdr_first: bool,
+}
+
+/// Contact URIs of other devices registered for the same address-of-record. None of them is equivalent
+/// to ezk's own contact `sip:alice@10.0.0.1:5060` under RFC 3261 19.1.4 (host, port, user or scheme differ).
+pub const FOREIGN: &[&str] = &[
+    "sip:alice@10.0.0.77:5060",
+    "sip:alice@10.0.0.1:5062",
+    "sip:bob@10.0.0.1:5060",
+    "sip:alice@[2001:db8::7]:5060",
+    "sips:alice@desk.example.com",
+    "sip:alice@10.0.0.10:5060",
+];
+
+/// where the 200 states the lifetime of OUR binding
+#[derive(Clone, Copy, Debug, PartialEq, Eq)]
+pub enum Src {
+    /// the Expires header (our Contact is not listed, has no `expires` parameter, or repeats the header's value)
+    Header,
+    /// only the `expires` parameter of our own Contact (Expires header absent or stating something else)
+    ContactParam,
+}
+
+/// RFC 3261 10.2.4 reading of a 200 (written from the RFC text, independent of ezk): lifetime of our own
+/// binding and where it is stated; None = the 200 states no lifetime for our binding
+pub fn stated_lifetime(granted: u32, sh: &Shape) -> Option<(u32, Src)> {
+    match (sh.own, sh.hdr) {
+        (OwnBinding::Param, Hdr::Own) => Some((granted, Src::Header)),
+        (OwnBinding::Param, Hdr::Other(v)) if v == granted => Some((granted, Src::Header)),
+        (OwnBinding::Param, _) => Some((granted, Src::ContactParam)),
+        (_, Hdr::Own) => Some((granted, Src::Header)),
+        (_, Hdr::Other(v)) => Some((v, Src::Header)),
+        (_, Hdr::Absent) => None,
+    }
+}
+
+/// every number of seconds that appears in the 200 (any of them may end up in a timer of a changed ezk)
+fn values_in_200(granted: u32, sh: &Shape) -> Vec<u32> {
+    let mut v = vec![];
+    match sh.hdr {
+        Hdr::Own => v.push(granted),
+        Hdr::Other(o) => v.push(o),
+        Hdr::Absent => {}
+    }
+    if sh.own == OwnBinding::Param {
+        v.push(granted);
+    }
+    v.extend(sh.others.iter().filter_map(|(_, e)| *e));
+    v
+}
+
+/// the Expires / Contact header lines of the 200; `own_uri` is the Contact URI of the REGISTER (from the wire)
+pub fn binding_headers(own_uri: &str, granted: u32, sh: &Shape) -> Vec<String> {
+    let mut entries: Vec<String> = sh
+        .others
+        .iter()
+        .map(|(i, e)| {
+            let uri = FOREIGN[(*i as usize).min(FOREIGN.len() - 1)];
+            match e {
+                Some(v) => format!("<{uri}>;expires={v}"),
+                None => format!("<{uri}>"),
+            }
+        })
+        .collect();
+    if sh.own != OwnBinding::NotListed {
+        let with = sh.own == OwnBinding::Param;
+        let own = match (sh.own_style, with) {
+            (1, true) => format!("<{own_uri}>;q=0.5;expires={granted}"),
+            (2, true) => format!("\"Alice\" <{own_uri}>;expires={granted}"),
+            (3, true) => format!("<{own_uri}>;EXPIRES={granted}"),
+            (4, true) => format!("<{own_uri}>;expires={granted};q=0.5"),
+            (_, true) => format!("<{own_uri}>;expires={granted}"),
+            (1, false) | (4, false) => format!("<{own_uri}>;q=0.5"),
+            (2, false) => format!("\"Alice\" <{own_uri}>"),
+            (_, false) => format!("<{own_uri}>"),
+        };
+        let pos = (sh.own_pos as usize).min(entries.len());
+        entries.insert(pos, own);
+    }
+    let mut contact_lines = vec![];
+    if !entries.is_empty() {
+        match sh.layout {
+            1 => contact_lines.extend(entries.iter().map(|e| format!("Contact: {e}"))),
+            2 => contact_lines.push(format!("m: {}", entries.join(", "))),
+            _ => contact_lines.push(format!("Contact: {}", entries.join(", "))),
+        }
+    }
+    let hdr = match sh.hdr {
+        Hdr::Own => Some(format!("Expires: {granted}")),
+        Hdr::Other(v) => Some(format!("Expires: {v}")),
+        Hdr::Absent => None,
+    };
+    let mut lines = vec![];
+    if sh.hdr_first {
+        lines.extend(hdr);
+        lines.extend(contact_lines);
+    } else {
+        lines.extend(contact_lines);
+        lines.extend(hdr);
+    }
+    lines
+}
+
+#[derive(Serialize, Deserialize, Clone, Debug, Hash, PartialEq, Eq)]
 pub enum Ans {
-    /// 200 with `Expires: granted`, arriving `delay` ms after the REGISTER
-    Ok { granted: u32, delay: u64 },
+    /// 200 granting `granted` seconds to our binding, arriving `delay` ms after the REGISTER; `shape` says how
+    /// the 200 states that (default: `Expires: granted`, no Contact)
+    Ok {
+        granted: u32,
+        delay: u64,
+        #[serde(default)]
+        shape: Shape,
+    },
     /// 423 with `Min-Expires: min`
     TooBrief { min: u32, delay: u64 },
+}
+
+/// plain 200 with `Expires: granted`
+fn ok(granted: u32, delay: u64) -> Ans {
+    Ans::Ok { granted, delay, shape: Shape::default() }
 }
 
 #[derive(Serialize, Deserialize, Clone, Debug, Hash)]
@@ -1423,7 +1605,12 @@ pub struct RegCase {
 
 #[derive(Debug, Clone)]
 pub struct RegWait {
-    pub lifetime: u32,
+    /// lifetime of our binding as the 200 states it (RFC 3261 10.2.4); None: the 200 states none
+    pub lifetime: Option<u32>,
+    pub src: Src,
+    /// the 200 listed our own / other devices' bindings
+    pub own_listed: bool,
+    pub others_listed: bool,
     pub granted_at: u64,
     pub returned_at: Option<u64>,
     pub after_423: bool,
@@ -1463,8 +1650,12 @@ pub fn run_registration(case: &RegCase) -> RegObserved {
         let mut after_423 = false;
         let mut tainted = case.init as u64 > CLOCK_MAX_S;
         for ans in &case.answers {
-            tainted |= match *ans {
-                Ans::Ok { granted: v, .. } | Ans::TooBrief { min: v, .. } => v as u64 > CLOCK_MAX_S,
+            // every value of the answer may end up in a timer (of a changed ezk: also the other devices' values)
+            tainted |= match ans {
+                Ans::Ok { granted, shape, .. } => {
+                    *granted as u64 > CLOCK_MAX_S || values_in_200(*granted, shape).iter().any(|v| *v as u64 > CLOCK_MAX_S)
+                }
+                Ans::TooBrief { min, .. } => *min as u64 > CLOCK_MAX_S,
             };
             let request = registration.create_register(false);
             let before = log.len();
@@ -1480,14 +1671,18 @@ pub fn run_registration(case: &RegCase) -> RegObserved {
                 problems.push("REGISTER not on the wire".into());
                 break;
             };
-            let (code, extra, delay) = match *ans {
-                Ans::Ok { granted, delay } => (200, format!("Expires: {granted}"), delay),
-                Ans::TooBrief { min, delay } => (423, format!("Min-Expires: {min}"), delay),
+            let (code, extra, delay) = match ans {
+                Ans::Ok { granted, delay, shape } => {
+                    // our own binding is listed exactly as the REGISTER spelled it
+                    let own_uri = contact_uri(&req).unwrap_or_else(|| "sip:alice@10.0.0.1:5060".to_string());
+                    (200, binding_headers(&own_uri, *granted, shape), *delay)
+                }
+                Ans::TooBrief { min, delay } => (423, vec![format!("Min-Expires: {min}")], *delay),
             };
             if delay > 0 {
                 clock.advance(delay).await;
             }
-            inject(&endpoint, &tp, peer, &response_text(&req, code, Some("c17regtag"), &[extra]));
+            inject(&endpoint, &tp, peer, &response_text(&req, code, Some("c17regtag"), &extra));
             let response = match tokio::time::timeout(Duration::from_secs(40), tsx.receive_final()).await {
                 Ok(Ok(r)) => r,
                 Ok(Err(e)) => {
@@ -1499,18 +1694,24 @@ pub fn run_registration(case: &RegCase) -> RegObserved {
                     break;
                 }
             };
-            match *ans {
-                Ans::Ok { granted, .. } => {
+            match ans {
+                Ans::Ok { granted, shape, .. } => {
                     registration.receive_success_response(response);
                     let granted_at = clock.now_ms();
+                    let stated = stated_lifetime(*granted, shape);
+                    // watched for the stated lifetime (a 200 stating none: for what `granted` would have been)
+                    let l = stated.map(|(l, _)| l).unwrap_or(*granted);
                     // a lifetime beyond the clock range leaves a far timer inside tokio; while one may be
                     // registered the clock stays below the first top-level slot boundary (2^30 ms)
-                    let full = (granted.max(20) as u64) * 1000 + 64_000;
-                    let timed = granted as u64 <= CLOCK_MAX_S && (!tainted || clock.now_ms() + full < (1 << 30));
+                    let full = (l.max(20) as u64) * 1000 + 64_000;
+                    let timed = l as u64 <= CLOCK_MAX_S && (!tainted || clock.now_ms() + full < (1 << 30));
                     let limit = if timed { full } else { WINDOW_MS };
                     let r = tokio::time::timeout(Duration::from_millis(limit), registration.wait_for_expiry()).await;
                     waits.push(RegWait {
-                        lifetime: granted,
+                        lifetime: stated.map(|(l, _)| l),
+                        src: stated.map(|(_, s)| s).unwrap_or(Src::Header),
+                        own_listed: shape.own != OwnBinding::NotListed,
+                        others_listed: !shape.others.is_empty(),
                         granted_at,
                         returned_at: r.ok().map(|_| clock.now_ms()),
                         after_423,
@@ -1579,35 +1780,138 @@ pub fn check_registration(case: &RegCase, out: &mut CaseOut) {
             format!("{} REGISTER transactions for {} rounds", obs.registers.len(), case.answers.len()),
         );
     }
-    // refresh before the lifetime ends
+    // refresh before the lifetime of OUR binding ends
     for w in &obs.waits {
-        let l = w.lifetime as u64;
+        let Some(l) = w.lifetime else {
+            out.class("200-states-no-lifetime-for-our-binding(not asserted)");
+            continue;
+        };
+        let l = l as u64;
         if l <= 10 {
             out.class("lifetime<=10s(not asserted)");
             continue;
         }
         let kind = if w.after_423 { "after-423" } else { "200" };
-        match w.returned_at {
-            Some(t) if t < w.granted_at + l * 1000 => out.class("refresh-before-expiry"),
-            Some(t) => out.fail(
-                format!("c17.reg/refresh-not-before-expiry:{kind}"),
+        // what the 200 looked like (part of the signature: a change that is confused by the listed bindings
+        // fails under another name than one that mis-handles the plain Expires answer)
+        let listed = match (w.others_listed, w.own_listed) {
+            (true, _) => ":other-bindings-listed",
+            (false, true) => ":own-binding-listed",
+            (false, false) => "",
+        };
+        out.class(match (w.src, w.others_listed) {
+            (Src::Header, false) => "checked-against-expires-header",
+            (Src::Header, true) => "checked-against-expires-header-with-other-bindings-listed",
+            (Src::ContactParam, false) => "checked-against-own-contact-param",
+            (Src::ContactParam, true) => "checked-against-own-contact-param-with-other-bindings-listed",
+        });
+        let expiry = w.granted_at + l * 1000;
+        let late: Option<String> = match w.returned_at {
+            Some(t) if t < expiry => {
+                out.class("refresh-before-expiry");
+                None
+            }
+            Some(t) => Some(format!(
+                "wait_for_expiry returned at {t} ms = expiry{:+} ms",
+                t as i128 - expiry as i128
+            )),
+            None if !w.timed => {
+                out.class("lifetime-beyond-virtual-clock(120 s window only)");
+                None
+            }
+            None => Some("wait_for_expiry did not return within lifetime+64s".to_string()),
+        };
+        let Some(how) = late else { continue };
+        let never = w.returned_at.is_none();
+        match w.src {
+            Src::Header => out.fail(
                 format!(
-                    "lifetime {l}s granted at {} ms, wait_for_expiry returned at {t} ms = expiry{:+} ms",
-                    w.granted_at,
-                    t as i128 - (w.granted_at + l * 1000) as i128
+                    "c17.reg/{}:{kind}{listed}",
+                    if never { "never-refreshed" } else { "refresh-not-before-expiry" }
                 ),
+                format!("lifetime {l}s granted at {} ms (Expires header), {how}", w.granted_at),
             ),
-            None if !w.timed => out.class("lifetime-beyond-virtual-clock(120 s window only)"),
-            None => out.fail(
-                format!("c17.reg/never-refreshed:{kind}"),
-                format!("lifetime {l}s granted at {} ms, wait_for_expiry did not return within lifetime+64s", w.granted_at),
+            // one signature for "the expires parameter of the own Contact is the only place that states the
+            // lifetime and the refresh came too late / not at all"
+            Src::ContactParam => out.fail(
+                "c17.reg/not-refreshed-before-own-contact-expires",
+                format!(
+                    "lifetime {l}s granted at {} ms through the expires parameter of our own Contact (Expires header absent or different), {how}",
+                    w.granted_at
+                ),
             ),
         }
     }
     let mut vals: Vec<u64> = vec![case.init as u64];
+    let mut shaped = false;
     for a in &case.answers {
         match a {
-            Ans::Ok { granted, .. } => vals.push(*granted as u64),
+            Ans::Ok { granted, shape, .. } => {
+                vals.push(*granted as u64);
+                if *shape != Shape::default() {
+                    shaped = true;
+                }
+                // ---- classes of the 200's shape
+                let own_pos = (shape.own_pos as usize).min(shape.others.len());
+                match shape.own {
+                    OwnBinding::NotListed => {
+                        if !shape.others.is_empty() {
+                            out.class("200:only-other-bindings-listed");
+                        }
+                    }
+                    OwnBinding::NoParam => out.class("200:own-binding-listed-without-expires-param"),
+                    OwnBinding::Param => out.class("200:own-binding-listed-with-expires-param"),
+                }
+                if !shape.others.is_empty() {
+                    out.class("200:other-bindings-listed");
+                    if shape.own != OwnBinding::NotListed {
+                        out.class(if own_pos == 0 {
+                            "200:own-binding-first"
+                        } else if own_pos == shape.others.len() {
+                            "200:own-binding-last"
+                        } else {
+                            "200:own-binding-in-the-middle"
+                        });
+                    }
+                    let stated = stated_lifetime(*granted, shape).map(|(l, _)| l);
+                    let first_foreign_first = shape.own == OwnBinding::NotListed || own_pos > 0;
+                    if let Some(l) = stated {
+                        if shape.others.iter().any(|(_, e)| e.map_or(false, |e| e > l)) {
+                            out.class("200:other-binding-outlives-ours");
+                        }
+                        if shape.others.iter().any(|(_, e)| e.map_or(false, |e| e < l)) {
+                            out.class("200:other-binding-shorter-than-ours");
+                        }
+                        if first_foreign_first && shape.others[0].1.map_or(false, |e| e > l) {
+                            out.class("200:first-listed-binding-is-foreign-and-outlives-ours");
+                        }
+                    }
+                    if shape.others.iter().any(|(_, e)| e.is_none()) {
+                        out.class("200:other-binding-without-expires-param");
+                    }
+                }
+                match shape.hdr {
+                    Hdr::Own => {}
+                    Hdr::Absent => out.class("200:no-expires-header"),
+                    Hdr::Other(v) => out.class(if v > *granted {
+                        "200:expires-header-above-own-contact-param"
+                    } else if v < *granted {
+                        "200:expires-header-below-own-contact-param"
+                    } else {
+                        "200:expires-header-equals-own-contact-param"
+                    }),
+                }
+                if matches!(stated_lifetime(*granted, shape), Some((_, Src::ContactParam))) {
+                    out.class("200:lifetime-only-in-own-contact-param");
+                }
+                if shape.own != OwnBinding::NotListed || !shape.others.is_empty() {
+                    out.class(match shape.layout {
+                        1 => "200:one-contact-header-per-binding",
+                        2 => "200:compact-contact-header",
+                        _ => "200:comma-separated-contact-header",
+                    });
+                }
+            }
             Ans::TooBrief { min, .. } => {
                 out.class("423-min-expires");
                 vals.push(*min as u64)
@@ -1617,16 +1921,16 @@ pub fn check_registration(case: &RegCase, out: &mut CaseOut) {
     if obs.waits.iter().any(|w| w.after_423) {
         out.class("200-after-423");
     }
-    if obs.waits.iter().any(|w| w.lifetime > 10 && w.lifetime < 20) {
+    if obs.waits.iter().any(|w| w.lifetime.map_or(false, |l| l > 10 && l < 20)) {
         out.class("lifetime-in-(10,20)");
     }
-    if obs.waits.iter().any(|w| w.lifetime >= MAXU - 11) {
+    if obs.waits.iter().any(|w| w.lifetime.map_or(false, |l| l >= MAXU - 11)) {
         out.class("lifetime-near-u32-max");
     }
     if obs.waits.len() >= 2 {
         out.class("two-or-more-grants");
     }
-    if vals.iter().any(|v| near_edge(*v)) || case.answers.len() >= 2 {
+    if vals.iter().any(|v| near_edge(*v)) || case.answers.len() >= 2 || shaped {
         out.nontrivial(case);
     }
 }
@@ -1644,38 +1948,149 @@ pub fn grid_reg(tier: Tier) -> Vec<RegCase> {
         for &a in EXP_GRID {
             let d = delays[(n % 4) as usize];
             // one grant; the same grant twice (second cycle keeps the interval)
-            push(init, vec![Ans::Ok { granted: a, delay: d }], &mut n);
-            push(init, vec![Ans::Ok { granted: a, delay: 0 }, Ans::Ok { granted: a, delay: d }], &mut n);
+            push(init, vec![ok(a, d)], &mut n);
+            push(init, vec![ok(a, 0), ok(a, d)], &mut n);
             for &b in EXP_GRID {
                 let d = delays[(n % 4) as usize];
-                push(init, vec![Ans::Ok { granted: a, delay: 0 }, Ans::Ok { granted: b, delay: d }], &mut n);
-                push(init, vec![Ans::TooBrief { min: a, delay: d }, Ans::Ok { granted: b, delay: 0 }], &mut n);
+                push(init, vec![ok(a, 0), ok(b, d)], &mut n);
+                push(init, vec![Ans::TooBrief { min: a, delay: d }, ok(b, 0)], &mut n);
             }
-            push(
-                init,
-                vec![Ans::TooBrief { min: a, delay: 0 }, Ans::Ok { granted: a, delay: 700 }, Ans::Ok { granted: a, delay: 0 }],
-                &mut n,
-            );
+            push(init, vec![Ans::TooBrief { min: a, delay: 0 }, ok(a, 700), ok(a, 0)], &mut n);
         }
     }
     // a grant equal to what was asked for (the interval created by `new` stays in use)
     for &v in EXP_GRID {
-        push(v, vec![Ans::Ok { granted: v, delay: 700 }, Ans::Ok { granted: v, delay: 0 }], &mut n);
+        push(v, vec![ok(v, 700), ok(v, 0)], &mut n);
     }
     out
 }
 
+/// the shapes of a 200 listing bindings: requested x granted x (own binding, Expires header) x list of other
+/// devices' bindings x every position of the own binding in the list x header layout
+pub fn grid_reg_bindings(tier: Tier) -> Vec<RegCase> {
+    let mut out = vec![];
+    let mut n = 0u32;
+    let inits: &[u32] = tier.pick(&[600, 3600][..], &[600, 3600, 11, MAXU][..]);
+    let grants: &[u32] = tier.pick(&[11, 60, 600, 3600][..], &[11, 12, 20, 21, 60, 600, 1800, 3600, 67_000_000][..]);
+    let mut lists: Vec<Vec<(u8, Option<u32>)>> = vec![
+        vec![],
+        vec![(0, None)],
+        vec![(0, Some(0))],
+        vec![(0, Some(30))],
+        vec![(0, Some(3412))],
+        vec![(1, Some(7200))],
+        vec![(2, Some(MAXU))],
+        vec![(5, Some(86_400))],
+        vec![(0, Some(3412)), (1, Some(30))],
+        vec![(3, Some(30)), (4, Some(3412))],
+        vec![(2, None), (0, Some(7200))],
+        vec![(0, Some(3412)), (1, Some(3412)), (2, Some(3412))],
+    ];
+    if tier == Tier::Thorough {
+        for (i, &v) in EXP_GRID.iter().enumerate() {
+            lists.push(vec![((i % FOREIGN.len()) as u8, Some(v))]);
+            lists.push(vec![(((i + 1) % FOREIGN.len()) as u8, Some(45)), ((i % FOREIGN.len()) as u8, Some(v))]);
+        }
+    }
+    for &init in inits {
+        for &g in grants {
+            let mut combos = vec![
+                (OwnBinding::NotListed, Hdr::Own),
+                (OwnBinding::NoParam, Hdr::Own),
+                (OwnBinding::Param, Hdr::Own),
+                (OwnBinding::Param, Hdr::Absent),
+                (OwnBinding::Param, Hdr::Other(g / 2)),
+                (OwnBinding::Param, Hdr::Other(g.saturating_mul(2))),
+            ];
+            if tier == Tier::Thorough {
+                combos.push((OwnBinding::Param, Hdr::Other(MAXU)));
+                combos.push((OwnBinding::NoParam, Hdr::Absent));
+                combos.push((OwnBinding::NotListed, Hdr::Absent));
+            }
+            for (own, hdr) in combos {
+                for others in &lists {
+                    let positions = if own == OwnBinding::NotListed { 0 } else { others.len() };
+                    for own_pos in 0..=positions {
+                        for layout in 0..3u8 {
+                            if layout > 0 && others.is_empty() && own == OwnBinding::NotListed {
+                                continue; // no Contact header at all
+                            }
+                            n += 1;
+                            let shape = Shape {
+                                hdr,
+                                own,
+                                others: others.clone(),
+                                own_pos: own_pos as u8,
+                                layout,
+                                own_style: (n % 5) as u8,
+                                hdr_first: n % 2 == 0,
+                            };
+                            let delay = [0u64, 700][(n % 2) as usize];
+                            let first = Ans::Ok { granted: g, delay, shape };
+                            // every third case: the refresh is answered the same way (second cycle)
+                            let answers = if n % 3 == 0 { vec![first.clone(), first] } else { vec![first] };
+                            out.push(RegCase { init, answers, rng: (n % 8) as u8 });
+                        }
+                    }
+                }
+            }
+        }
+    }
+    out
+}
+
+fn any_shape() -> BoxedStrategy<Shape> {
+    // other devices' lifetimes: mostly inside the range of the virtual clock
+    let other_secs = prop_oneof![
+        4 => 0u32..100_000,
+        2 => any::<u16>().prop_map(|s| EXP_GRID[pick_idx(s, EXP_GRID.len())]),
+        1 => any_secs(EXP_GRID, 0),
+    ];
+    let others = prop::collection::vec(
+        (0u8..FOREIGN.len() as u8, prop::option::weighted(0.85, other_secs)),
+        0..=3,
+    );
+    (
+        prop_oneof![Just(OwnBinding::NotListed), Just(OwnBinding::NoParam), Just(OwnBinding::Param), Just(OwnBinding::Param)],
+        0u8..8,
+        any_secs(EXP_GRID, 0),
+        others,
+        0u8..4,
+        0u8..3,
+        0u8..5,
+        any::<bool>(),
+    )
+        .prop_map(|(own, hsel, hv, others, own_pos, layout, own_style, hdr_first)| {
+            // an Expires header that differs from the granted lifetime only next to an own Contact that
+            // states it (otherwise the header IS the grant: covered by Hdr::Own with that value)
+            let hdr = match (own, hsel) {
+                (OwnBinding::Param, 0 | 1) => Hdr::Absent,
+                (OwnBinding::Param, 2 | 3) => Hdr::Other(hv),
+                (OwnBinding::Param, _) => Hdr::Own,
+                (_, 0) => Hdr::Absent, // the 200 states nothing about our binding: only "no panic"
+                _ => Hdr::Own,
+            };
+            Shape { hdr, own, others, own_pos, layout, own_style, hdr_first }
+        })
+        .boxed()
+}
+
 pub fn strategy_reg() -> BoxedStrategy<RegCase> {
     let delay = prop_oneof![Just(0u64), Just(1u64), Just(700u64), 0u64..6000];
+    let shape = prop_oneof![Just(Shape::default()).boxed(), any_shape()];
     let ans = prop_oneof![
-        3 => (any_secs(EXP_GRID, 0), delay.clone()).prop_map(|(granted, delay)| Ans::Ok { granted, delay }),
+        3 => (any_secs(EXP_GRID, 0), delay.clone(), shape).prop_map(|(granted, delay, shape)| Ans::Ok { granted, delay, shape }),
         1 => (any_secs(EXP_GRID, 0), delay).prop_map(|(min, delay)| Ans::TooBrief { min, delay }),
     ];
     (any_secs(EXP_GRID, 0), prop::collection::vec(ans, 1..=4), any::<u8>())
         .prop_map(|(init, mut answers, rng)| {
             // repeat a value now and then: equal successive lifetimes take a different path in the code
             if rng % 3 == 0 && answers.len() >= 2 {
-                if let (Ans::Ok { granted, .. }, Ans::Ok { granted: g2, .. }) = (answers[0], &mut answers[1]) {
+                let first = match &answers[0] {
+                    Ans::Ok { granted, .. } => Some(*granted),
+                    _ => None,
+                };
+                if let (Some(granted), Ans::Ok { granted: g2, .. }) = (first, &mut answers[1]) {
                     *g2 = granted;
                 }
             }
@@ -1688,7 +2103,7 @@ pub fn property() -> Property {
     Property {
         fuzz: vec![],
         id: "C17",
-        rule: "session cases = local role (caller via Initiator / callee via Acceptor) x Session-Expires x refresher parameter (uac, uas, absent) x Min-SE x history of <=4 steps {silence for SE+64 s, refresh received = peer re-INVITE at an offset inside the interval (1 ms, half, +-1 ms around SE-10 s, SE-1 ms, random), refresh sent = RefreshNeeded answered with process_default}; registration cases = initial expiry x 1..4 registrar answers {200 Expires: v, 423 Min-Expires: v} with answer delays. Values from {0/1,2,9,10,11,19,20,21,32,33,89,90,1800,2^31-1,2^31,u32::MAX-11..u32::MAX} and random u32. Non-trivial = negotiated/granted value < 90 or within 11 of 0 / 2^31 / u32::MAX, or >=1 refresh (sessions) / >=2 answers (registrations), or ezk is the refresher; distinct by hash of the case.",
+        rule: "session cases = local role (caller via Initiator / callee via Acceptor) x Session-Expires x refresher parameter (uac, uas, absent) x Min-SE x history of <=4 steps {silence for SE+64 s, refresh received = peer re-INVITE at an offset inside the interval (1 ms, half, +-1 ms around SE-10 s, SE-1 ms, random), refresh sent = RefreshNeeded answered with process_default}; registration cases = initial expiry x 1..4 registrar answers {200 granting v, 423 Min-Expires: v} with answer delays; a 200 states the grant as `Expires: v` alone or in the RFC 3261 10.3 shape: own binding {not listed, listed, listed with ;expires=v} x Expires header {v, absent, other value} x 0..3 bindings of other devices (expires absent/shorter/longer) x position of the own binding x Contact layout {comma list, one header each, compact}. Values from {0/1,2,9,10,11,19,20,21,32,33,89,90,1800,2^31-1,2^31,u32::MAX-11..u32::MAX} and random u32. Non-trivial = negotiated/granted value < 90 or within 11 of 0 / 2^31 / u32::MAX, or >=1 refresh (sessions) / >=2 answers or a 200 with a Contact list or without Expires header (registrations), or ezk is the refresher; distinct by hash of the case.",
         assumptions: vec![
             "timers run on tokio's paused clock. Expiry is followed on the clock for intervals <= 67,000,000 s (tokio's documented maximum sleep is 2^36 ms ~ 2.2 years; from 63*2^30 ms on tokio 1.53's timer wheel fires timers out of order and can corrupt its lists when such a sleep is reset - reproduced with tokio alone); longer intervals are watched for a 120 s window only: no panic, no BYE inside the window",
             "Session-Expires 0 is not generated (no instant is strictly before the end of an empty interval); Min-SE / Expires 0 are",
@@ -1697,13 +2112,16 @@ pub fn property() -> Property {
             "a 2xx without refresher parameter: acting as refresher and acting as non-refresher are both accepted, doing neither is not",
             "RefreshNeeded later than the expiry is not asserted when the application was not inside Session::drive() at any time of the interval (RefreshNeeded::process_default blocks for 64*T1 = 32 s after the 2xx, so this concerns SE <= 32 s after a refresh sent)",
             "peer re-INVITEs never land on a whole or half second after the last refresh (ties with the session timer are don't-cares)",
-            "registrar grants through the Expires header; contact-level expires, 422 and how early a refresh happens are not asserted",
+            "the lifetime the registrar granted to ezk's binding is read off the 200 by RFC 3261 10.2.4: the expires parameter of ezk's own Contact (spelled as in the REGISTER), else the Expires header; bindings of other devices listed in the same 200 (URIs differing in host, port, user or scheme) never count. A 200 stating neither is not asserted (no panic only)",
+            "every number in a 200 (also other devices' expires values) above 67,000,000 s restricts the rest of the case to the 120 s window / the first 2^30 ms of the clock, because a changed ezk could arm a timer for it",
+            "422, how early a refresh happens and the Expires value of the next REGISTER are not asserted",
         ],
-        explanation: "grid sub-checks enumerate the value grid x refresher parameter x short histories for both roles and (init, answer pairs) for registrations; the _random sub-checks sample random u32 values, longer histories, ACK / answer delays and tokio select seeds",
+        explanation: "grid sub-checks enumerate the value grid x refresher parameter x short histories for both roles and (init, answer pairs) for registrations; registration_bindings enumerates requested x granted x (own binding, Expires header) x 12 lists of other bindings x every position x 3 layouts (spelling, header order, answer delay and a repeated second cycle rotate); the _random sub-checks sample random u32 values, longer histories, ACK / answer delays and tokio select seeds",
         subs: vec![
             enum_sub("session_uas", grid_uas, check_session),
             enum_sub("session_uac", grid_uac, check_session),
             enum_sub("registration", grid_reg, check_registration),
+            enum_sub("registration_bindings", grid_reg_bindings, check_registration),
             prop_sub("session_uas_random", strategy_uas, 600, 6000, check_session),
             prop_sub("session_uac_random", strategy_uac, 1000, 8000, check_session),
             prop_sub("registration_random", strategy_reg, 800, 6000, check_registration),
